@@ -36,6 +36,8 @@ func runC02(c *Ctx) {
 	c.Rule("C02.R7", "timer callbacks: reuse off -> cleaned check -> generation check -> CAS -> handler", 2)
 	c.Rule("C02.R8", "stream buffers recycled only when reuse is enabled and no side was reset", 2)
 	c.Rule("C02.R9", "every decoded frame gets its own stream-level context (no reuse after a dropped frame)", 2)
+	c.Rule("C02.R17", "HTTP/2 frame reader: a header block is fed to the connection HPACK decoder once, after all of it arrived (re-parsing after need-more-data must not decode twice)", 5)
+	defer runC07H2(c, "", "C02.R17")
 	c.Rule("C02.R16", "HTTP/2: a header block is encoded and written under one hold of the connection mutex, so responses sharing a connection cannot exchange header fields", 4)
 	defer c18EncodeAndWriteAtomic(c, "C02.R16")
 	c.Rule("C02.R10", "recycled per-stream buffer contexts are wiped completely", 5)
